@@ -42,7 +42,8 @@ var c20Fields = map[string]string{"n1": "num", "n2": "num", "s1": "str", "s2": "
 	"pn": "num", "ps": "str", "pb": "bool", "pt": "time", "ps2": "str", "pn2": "num"}
 
 var c20Strs = []string{"", "a", "admin", "O'Reilly", "q\"uote", "\"", "\"\"", "back\\slash", "\\", "x\\", "\\\"", "C:\\new", "a\\\" OR 1=1 -- ", "\" OR \"\"=\"",
-	"%_", "100%", "line\nbreak", "tab\t", "cr\r", "\x00", "\x1a", "\b", "晓明", "é", "​", "\xff", "a\xffb\"c", "`tick`", "';--", "\\x00", "\\n", "{}", "(1, 2)", "1) OR (1=1"}
+	"%_", "100%", "line\nbreak", "tab\t", "cr\r", "\x00", "\x1a", "\b", "晓明", "é", "​", "\xff", "a\xffb\"c", "`tick`", "';--", "\\x00", "\\n", "{}", "(1, 2)", "1) OR (1=1",
+	strings.Repeat("a", 31) + "\"", strings.Repeat("b", 32) + "\\", strings.Repeat("c", 63) + "\"" + strings.Repeat("c", 70), strings.Repeat("晓", 40) + "\\\"", strings.Repeat("x", 255) + "\"" + strings.Repeat("y", 10)}
 
 var c20Nums = []float64{0, 1, -1, 42, 0.5, -0.5, 3.14159, 1e-7, 255, 9007199254740993, 9223372036854775807, 9223372036854775808, -9223372036854775808, 1e19, 1e20, 123456789.125}
 
@@ -306,6 +307,9 @@ func genLeaf(r *rand.Rand) *critNode {
 	switch rel {
 	case "IN":
 		k := r.Intn(4)
+		if r.Intn(10) == 0 {
+			k = []int{15, 16, 17, 31, 32, 33, 63, 64, 65, 129}[r.Intn(10)]
+		}
 		lst := critOperand{kind: "list"}
 		for i := 0; i <= k; i++ {
 			lst.items = append(lst.items, genOperand(r, ty))
